@@ -39,7 +39,10 @@ func executeWith(p *bcl.Prog, out, log *bytes.Buffer, opts ...bcl.Option) (a act
 		}
 		a.Out, a.Log = out.String(), log.String()
 	}()
-	a.Blocks, a.Binding, a.Err = bcl.Execute(p, opts...)
+	// statistics and trace go to the writer of the Execute call, the
+	// program's own output to the writer it was parsed or loaded with
+	o := append([]bcl.Option{bcl.OptOutput(out), bcl.OptLogger(log)}, opts...)
+	a.Blocks, a.Binding, a.Err = bcl.Execute(p, o...)
 	return
 }
 
